@@ -112,7 +112,8 @@ Proof.
 Qed.
 
 (* ---------------- classification and the theorem ---------------- *)
-(* list-level << / >>, bulk parent assignment and the constructor with relation arguments undo the calls
+(* list-level << / >>, bulk assignment of parent / children / predecessors / successors and the constructor with
+   relation arguments undo the calls
    that returned when a later one raises (all_or_nothing): atomic on every state *)
 Lemma all_or_nothing_atomic s r : snd (all_or_nothing s r) <> OK -> fst (all_or_nothing s r) = s.
 Proof.
@@ -157,6 +158,8 @@ Proof.
   - apply ln_remove_atomic.
   - apply op_floordiv_atomic.
   - apply op_shift_atomic.
+  - apply all_or_nothing_atomic.
+  - apply all_or_nothing_atomic.
   - apply all_or_nothing_atomic.
   - apply all_or_nothing_atomic.
   - apply wbs_remove_atomic.
@@ -335,11 +338,13 @@ Proof.
 Qed.
 
 (* ---------------- the code before the all-or-nothing repair (F10) ---------------- *)
-(* the three operations as bare sequences of setter calls *)
+(* the five operations as bare sequences of setter calls *)
 Definition step_seq (s : state) (o : op) : state * outcome :=
   match o with
   | LstShift d ts vs => lst_shift_seq d s ts vs
   | LstSetParent ts p => lst_set_parent_seq s ts p
+  | LstSetChildren ts vs => lst_set_children_seq s ts vs
+  | LstSetLinks d ts vs => lst_set_links_seq d s ts vs
   | NewTaskRel i nm p ch su pr => new_task_rel_seq s i nm p ch su pr
   | _ => step s o
   end.
@@ -405,6 +410,49 @@ Lemma C15_refuted_new_task_rel_detail :
   kids (get (hp (fst (step_seq wit_new_task_rel_pre wit_new_task_rel_op))) 0) = [1].
 Proof. vm_compute. auto. Qed.
 
+(* p = Task(1); a = Task(2); b = Task(3); p.children = [a, b];  x = Task(4);  p.children.children = [x, b]
+   a.children = [x, b] is accepted (b moves from p below a), then b.children = [x, b] is rejected (own child) *)
+Definition wit_lst_set_children_pre : state :=
+  run init [NewTask 1 None [] None; NewTask 2 None [] None; NewTask 3 None [] None; NewTask 4 None [] None;
+            SetChildren 0 [Some 1; Some 2]].
+Definition wit_lst_set_children_op : op := LstSetChildren [1; 2] [Some 3; Some 2].
+
+Lemma C15_refuted_lst_set_children : exists s o, snd (step_seq s o) <> OK /\ fst (step_seq s o) <> s.
+Proof.
+  exists wit_lst_set_children_pre, wit_lst_set_children_op. split.
+  - vm_compute. discriminate.
+  - intro E. apply (f_equal (fun s => kids (get (hp s) 1))) in E. vm_compute in E. discriminate E.
+Qed.
+
+Lemma C15_refuted_lst_set_children_detail :
+  snd (step_seq wit_lst_set_children_pre wit_lst_set_children_op) = Err /\
+  kids (get (hp wit_lst_set_children_pre) 0) = [1; 2] /\
+  kids (get (hp (fst (step_seq wit_lst_set_children_pre wit_lst_set_children_op))) 0) = [1] /\
+  kids (get (hp (fst (step_seq wit_lst_set_children_pre wit_lst_set_children_op))) 1) = [3; 2] /\
+  par (get (hp (fst (step_seq wit_lst_set_children_pre wit_lst_set_children_op))) 2) = Some 1 /\
+  fst (step wit_lst_set_children_pre wit_lst_set_children_op) = wit_lst_set_children_pre.
+Proof. vm_compute. repeat split; reflexivity. Qed.
+
+(* a = Task(2); b = Task(3); lst = [a, b];  lst.predecessors = [b]
+   a.predecessors = [b] is accepted, then b.predecessors = [b] is rejected (own predecessor) *)
+Definition wit_lst_set_links_pre : state := wit_lst_shift_pre.
+Definition wit_lst_set_links_op : op := LstSetLinks true [1; 2] [Some 2].
+
+Lemma C15_refuted_lst_set_links : exists s o, snd (step_seq s o) <> OK /\ fst (step_seq s o) <> s.
+Proof.
+  exists wit_lst_set_links_pre, wit_lst_set_links_op. split.
+  - vm_compute. discriminate.
+  - intro E. apply (f_equal (fun s => preds (get (hp s) 1))) in E. vm_compute in E. discriminate E.
+Qed.
+
+Lemma C15_refuted_lst_set_links_detail :
+  snd (step_seq wit_lst_set_links_pre wit_lst_set_links_op) = Err /\
+  preds (get (hp wit_lst_set_links_pre) 1) = [] /\
+  preds (get (hp (fst (step_seq wit_lst_set_links_pre wit_lst_set_links_op))) 1) = [2] /\
+  succs (get (hp (fst (step_seq wit_lst_set_links_pre wit_lst_set_links_op))) 2) = [1] /\
+  fst (step wit_lst_set_links_pre wit_lst_set_links_op) = wit_lst_set_links_pre.
+Proof. vm_compute. repeat split; reflexivity. Qed.
+
 (* the three kinds are atomic per element too: what a raising call leaves is the effect of the
    element calls that returned *)
 Lemma C15_lst_shift_partial : forall d s ts vs,
@@ -415,6 +463,28 @@ Proof.
   intros d s ts vs H. unfold lst_shift_seq in *.
   destruct (seq_calls_prefix (fun s' t => op_shift d s' t vs)
               (fun s' t => op_shift_atomic d s' t vs) _ _ H) as (done & c & rest & E & H1 & H2 & H3).
+  exists done, c, rest. auto.
+Qed.
+
+Lemma C15_lst_set_children_partial : forall s ts vs,
+  snd (lst_set_children_seq s ts vs) <> OK ->
+  exists done t rest, ts = done ++ t :: rest /\
+    snd (lst_set_children_seq s done vs) = OK /\ fst (lst_set_children_seq s ts vs) = fst (lst_set_children_seq s done vs).
+Proof.
+  intros s ts vs H. unfold lst_set_children_seq in *.
+  destruct (seq_calls_prefix (fun s' t => set_children s' t vs)
+              (fun s' t => set_children_atomic s' t vs) _ _ H) as (done & c & rest & E & H1 & H2 & H3).
+  exists done, c, rest. auto.
+Qed.
+
+Lemma C15_lst_set_links_partial : forall d s ts vs,
+  snd (lst_set_links_seq d s ts vs) <> OK ->
+  exists done t rest, ts = done ++ t :: rest /\
+    snd (lst_set_links_seq d s done vs) = OK /\ fst (lst_set_links_seq d s ts vs) = fst (lst_set_links_seq d s done vs).
+Proof.
+  intros d s ts vs H. unfold lst_set_links_seq in *.
+  destruct (seq_calls_prefix (fun s' t => set_links d s' t vs)
+              (fun s' t => set_links_atomic d s' t vs) _ _ H) as (done & c & rest & E & H1 & H2 & H3).
   exists done, c, rest. auto.
 Qed.
 
